@@ -26,7 +26,7 @@ ROOT = os.path.dirname(os.path.dirname(os.path.abspath(__file__)))
 COQ = os.path.join(ROOT, "coq")
 BUILD = os.path.join(ROOT, ".build")
 RUN = os.path.join(ROOT, "run")
-REPO = "/repo"
+REPO = os.environ.get("VERIF_REPO", "/repo")   # scratch worktrees (seeded-change trials) set VERIF_REPO; registered checks use /repo
 NPROC = 16
 
 GOENV = dict(os.environ, GOFLAGS="-mod=mod", GOPROXY="off", GOSUMDB="off", GOTOOLCHAIN="local",
@@ -98,13 +98,32 @@ def grep_gate():
     return bad, len(files)
 
 
-def coq_make(targets=None, timeout=3000):
+def gen_coqproject():
+    """_CoqProject lists every .v under coq/ (directories holding a `.wip` marker are skipped)."""
+    files = []
+    for f in sorted(glob.glob(os.path.join(COQ, "**", "*.v"), recursive=True)):
+        rel = os.path.relpath(f, COQ)
+        d = os.path.dirname(f)
+        if os.path.exists(os.path.join(d, ".wip")) or rel.startswith("."):
+            continue
+        files.append(rel)
+    txt = "-Q . V\n-arg -w -arg -notation-overridden,-deprecated-hint-without-locality,-deprecated-instance-without-locality\n" + "\n".join(files) + "\n"
+    p = os.path.join(COQ, "_CoqProject")
+    old = open(p).read() if os.path.exists(p) else ""
+    if old != txt:
+        with open(p, "w") as fh:
+            fh.write(txt)
+    return files
+
+
+def coq_make(targets=None, timeout=3000, keep_going=False):
+    gen_coqproject()
     if not os.path.exists(os.path.join(COQ, "Makefile")) or \
             os.path.getmtime(os.path.join(COQ, "Makefile")) < os.path.getmtime(os.path.join(COQ, "_CoqProject")):
         rc, out = sh("coq_makefile -f _CoqProject -o Makefile", cwd=COQ, timeout=120)
         if rc != 0:
             return rc, out
-    cmd = "make -j%d %s" % (NPROC, " ".join(targets or []))
+    cmd = "make %s -j%d %s" % ("-k" if keep_going else "", NPROC, " ".join(targets or []))
     return sh(cmd, cwd=COQ, timeout=timeout)
 
 
@@ -146,11 +165,27 @@ def repo_tree_key():
     return out.split()[0] if rc == 0 and out.split() else "nokey"
 
 
-def build_harness():
+def harness_bin(prop):
+    tag = "" if REPO == "/repo" else "_" + hashlib.sha1(REPO.encode()).hexdigest()[:8]
+    return os.path.join(BUILD, "harness_%s%s" % (prop, tag))
+
+
+def build_harness(prop, race=False):
+    """go build ./cmd/<prop> of /verif/harness against REPO's working tree, build tag `verif`."""
     os.makedirs(BUILD, exist_ok=True)
     hdir = os.path.join(ROOT, "harness")
-    shutil.copyfile(os.path.join(REPO, "go.sum"), os.path.join(hdir, "go.sum"))
-    rc, out = sh(["go", "build", "-tags", "verif", "-o", os.path.join(BUILD, "harness"), "."], cwd=hdir, env=GOENV, timeout=900)
+    modargs = []
+    if REPO == "/repo":
+        shutil.copyfile(os.path.join(REPO, "go.sum"), os.path.join(hdir, "go.sum"))
+    else:
+        tag = hashlib.sha1(REPO.encode()).hexdigest()[:8]
+        mod = os.path.join(BUILD, "go_%s.mod" % tag)
+        with open(mod, "w") as f:
+            f.write(open(os.path.join(hdir, "go.mod")).read().replace("=> /repo", "=> " + REPO))
+        shutil.copyfile(os.path.join(REPO, "go.sum"), os.path.join(BUILD, "go_%s.sum" % tag))
+        modargs = ["-modfile=" + mod]
+    cmd = ["go", "build"] + modargs + ["-tags", "verif"] + (["-race"] if race else []) + ["-o", harness_bin(prop), "./cmd/" + prop.lower()]
+    rc, out = sh(cmd, cwd=hdir, env=GOENV, timeout=900)
     return rc, out
 
 
@@ -161,7 +196,7 @@ def run_harness(prop, outdir, seed, tier, extra_args=(), timeout=1800, extra_env
     env = dict(GOENV, VERIF_SEED=str(seed), VERIF_TIER=tier)
     if extra_env:
         env.update(extra_env)
-    rc, out = sh([os.path.join(BUILD, "harness"), prop, outdir] + list(extra_args), env=env, timeout=timeout)
+    rc, out = sh([harness_bin(prop), outdir] + list(extra_args), env=env, timeout=timeout)
     return rc, out
 
 
@@ -287,7 +322,7 @@ class Check:
             discharged += 1
         coverage["coq_files_scanned"] = nfiles
 
-        rc, out = coq_make(self.make_targets)
+        rc, out = coq_make(self.make_targets or ["Properties/%s.vo" % prop])
         obligations += 1
         if rc != 0:
             problems.append(dict(kind="proof", detail="coq build failed (a proof or model no longer checks):\n" + out[-3000:]))
@@ -313,13 +348,13 @@ class Check:
             discharged += res.get("discharged", 0)
             problems.extend(res.get("problems", []))
 
-        rc, out = build_harness()
+        rc, out = build_harness(self.harness_prop)
         if rc != 0:
             problems.append(dict(kind="correspondence", detail="harness does not build against /repo's working tree:\n" + out[-3000:]))
             summ, mism, errors = dict(evaluations=0, distinct_nontrivial=0, samples=[], histogram={}, rule=""), [], []
             outdir = None
         else:
-            outdir = os.path.join(RUN, prop)
+            outdir = os.path.join(RUN, prop if REPO == "/repo" else prop + "_" + hashlib.sha1(REPO.encode()).hexdigest()[:8])
             extra = [replay] if replay else []
             rc, out = run_harness(self.harness_prop, outdir, seed, tier, extra, timeout=self.harness_timeout)
             if rc != 0:
